@@ -75,6 +75,11 @@ impl IfFilter {
             if !keep_next_branches {
                 if let Some(block_replacer) = replace_else_with {
                     if_statement.set_else_block(block_replacer);
+                    // the original `else` keyword comes after the block that replaces
+                    // the else block: a new keyword has to be written before it
+                    if let Some(tokens) = if_statement.mutate_tokens() {
+                        tokens.r#else = None;
+                    }
                 } else {
                     if_statement.take_else_block();
                 }
